@@ -128,6 +128,19 @@ theorem window_report (inp : Input) (pf : List Char) (out : Output) (hv : header
   obtain ⟨n, e, lj, rj⟩ := d
   exact window_report' inp pf out hv ht n e lj rj (declOf_eq_some.2 hd) h hreg
 
+/-- … in particular for every catalog whose language is unknown or one of the SHIPPED registry (no hypothesis left about the
+    registry: `shipped_registry_clean`) -/
+theorem window_report_shipped (inp : Input) (pf : List Char) (out : Output) (hv : headerValues inp = [pf]) (ht : inp.isTemplate = false)
+    (d : Decl) (hd : declOf pf = some d) (h : checkPlurals inp = .ok out) (hreg : FromRegistry inp) :
+    ∃ front last rs, out.tags = front ++ last ++ gapTags (hasPlurals inp) rs ∧
+      (∀ t ∈ front, ¬ isArithName t.name ∧ ¬ isCodomainName t.name) ∧
+      (last = [] ↔ ∀ i, i < codomainLimit → badMsg d.n d.e i = none) ∧
+      (∀ i msg, i < codomainLimit → (∀ j, j < i → badMsg d.n d.e j = none) → badMsg d.n d.e i = some msg →
+        last = [⟨badTagName d.n d.e i (hasPlurals inp), [.safe msg]⟩]) ∧
+      (∀ r ∈ rs, r.1 < r.2 ∧ ∀ k : Nat, r.1 ≤ k → k < r.2 → ∀ m : Nat, (m : Int) < 2 ^ 32 → evalAt 32 m d.e ≠ .ok (k : Int)) ∧
+      (out.preimage ≠ none → last = [] ∧ rs = []) :=
+  window_report inp pf out hv ht d hd h hreg.clean
+
 /-- what `badMsg = none` means: the index evaluates, to a valid form index -/
 theorem badMsg_none_iff (n : Nat) (e : Expr) (i : Nat) :
     badMsg n e i = none ↔ ∃ v, evalAt 32 i e = .ok v ∧ 0 ≤ v ∧ v < n := by
